@@ -8,6 +8,7 @@ From DDP Require Import Alias.OMap Alias.OMapProofs Alias.Trie.
 Section Proofs.
 Variables K V : Type.
 Variable keq klt : K -> K -> bool.
+Variable isph isarg : K -> bool.
 Hypothesis keq_refl : forall a, keq a a = true.
 Hypothesis keq_sym : forall a b, keq a b = keq b a.
 Hypothesis keq_trans : forall a b c, keq a b = true -> keq b c = true -> keq a c = true.
@@ -154,6 +155,123 @@ Proof.
     apply sget_in in Es. destruct Es as [k0 Hin]. apply (IH k0 c Hin). eauto.
 Qed.
 
+(* ---- Search with the parser's key generator ---- *)
+Hypothesis isph_congr : forall a b, keq a b = true -> isph a = isph b.
+
+Fixpoint search_children (k : K) (q' : list K) (ch l : list (K * trie)) : option (list V) :=
+  match l with
+  | [] => Some []
+  | (ck, c) :: r =>
+    if kmatch keq isph isarg k ck then
+      match get keq klt ch ck with
+      | None => None
+      | Some _ =>
+        match search_seq keq klt isph isarg q' c, search_children k q' ch r with
+        | Some a, Some b => Some (opt_list V (node_val c) ++ a ++ b)
+        | _, _ => None
+        end
+      end
+    else search_children k q' ch r
+  end.
+
+Lemma search_cons v ch k q' :
+  search_seq keq klt isph isarg (k :: q') (Node v ch) = search_children k q' ch ch.
+Proof.
+  cbn [search_seq]. generalize ch at 2 4. intros l.
+  induction l as [|[ck c] r IH]; cbn [search_children]; [reflexivity|]. rewrite IH. reflexivity.
+Qed.
+
+Lemma sget_in_keq (m : list (K * trie)) k c : sget keq m k = Some c -> exists ck, In (ck, c) m /\ keq ck k = true.
+Proof.
+  induction m as [|[k0 c0] r IH]; cbn; [congruence|].
+  destruct (keq k0 k) eqn:E; intros H.
+  - inversion H; subst. eauto.
+  - destruct (IH H) as (ck & Hin & Hk). eauto.
+Qed.
+
+Lemma sget_of_in (m : list (K * trie)) ck c : uniq m -> In (ck, c) m -> sget keq m ck = Some c.
+Proof.
+  induction m as [|[k0 c0] r IH]; intros Hu Hin; [destruct Hin|].
+  destruct Hu as [Hh Hr]. cbn. destruct Hin as [E|Hin].
+  - inversion E; subst. rewrite keq_refl. reflexivity.
+  - rewrite Hh; [apply IH; assumption|]. apply (in_map fst) in Hin. exact Hin.
+Qed.
+
+Lemma keq_congr_r k a b : keq a b = true -> keq k a = keq k b.
+Proof.
+  intros E. destruct (keq k a) eqn:E1.
+  - symmetry. eapply keq_trans; eauto.
+  - destruct (keq k b) eqn:E2; [|reflexivity].
+    rewrite keq_sym in E. rewrite (keq_trans _ _ _ E2 E) in E1. congruence.
+Qed.
+
+(* matching respects the key equality on the pattern side *)
+Lemma kmatch_congr k a b : keq a b = true -> kmatch keq isph isarg k a = kmatch keq isph isarg k b.
+Proof.
+  intros E. unfold kmatch, gen_key. rewrite (isph_congr a b E).
+  destruct (isph b && isarg k); [rewrite !keq_refl; reflexivity|apply keq_congr_r; exact E].
+Qed.
+
+Lemma inst_prefix_congr a b q : eql keq a b = true -> inst_prefix keq isph isarg a q = inst_prefix keq isph isarg b q.
+Proof.
+  revert b q. induction a as [|x a IH]; intros [|y b] q E; cbn in E; try congruence.
+  apply andb_true_iff in E. destruct E as [E1 E2]. destruct q as [|k q]; cbn; [reflexivity|].
+  rewrite (kmatch_congr k x y E1), (IH b q E2). reflexivity.
+Qed.
+
+(* Search never dereferences nil on a well-formed trie and returns exactly the values bound to the
+   non-empty patterns that a prefix of the call instantiates *)
+Theorem search_spec : forall q t, wf t ->
+  exists r, search_seq keq klt isph isarg q t = Some r /\
+    forall v, In v r <-> exists ks, ks <> [] /\ inst_prefix keq isph isarg ks q = true /\ lookup keq klt t ks = Some v.
+Proof.
+  induction q as [|k q' IH]; intros [val ch] Hw.
+  - exists []. split; [reflexivity|]. intros v; split; [intros []|].
+    intros (ks & Hne & Hi & _). destruct ks; [congruence|discriminate Hi].
+  - inversion Hw as [v0 ch0 Hu Hc]; subst. rewrite search_cons.
+    assert (Hloop : forall l, (forall ck c, In (ck, c) l -> In (ck, c) ch) ->
+      exists r, search_children k q' ch l = Some r /\
+        forall v, In v r <-> exists ck c, In (ck, c) l /\ kmatch keq isph isarg k ck = true /\
+                      (node_val c = Some v \/ exists ks, ks <> [] /\ inst_prefix keq isph isarg ks q' = true /\ lookup keq klt c ks = Some v)).
+    { induction l as [|[ck c] r IHl]; intros Hsub.
+      - exists []. split; [reflexivity|]. intros v; split; [intros []|]. intros (? & ? & [] & _).
+      - destruct IHl as (rr & Hrr & Hin_rr); [intros; apply Hsub; right; assumption|].
+        cbn [search_children]. destruct (kmatch keq isph isarg k ck) eqn:Em.
+        + assert (Hg : get keq klt ch ck = Some c).
+          { rewrite (get_is_sget K _ keq klt keq_sym keq_trans ch ck Hu). apply sget_of_in; [exact Hu|apply Hsub; left; reflexivity]. }
+          rewrite Hg. destruct (IH c) as (rc & Hrc & Hin_rc); [eapply Hc; apply Hsub; left; reflexivity|].
+          rewrite Hrc, Hrr. eexists; split; [reflexivity|]. intros v. rewrite !in_app_iff. split.
+          * intros [H|[H|H]].
+            -- exists ck, c. split; [left; reflexivity|]. split; [exact Em|]. left.
+               destruct (node_val c); cbn in H; [destruct H as [->|[]]; reflexivity|destruct H].
+            -- exists ck, c. split; [left; reflexivity|]. split; [exact Em|]. right. apply Hin_rc. exact H.
+            -- apply Hin_rr in H. destruct H as (ck1 & c1 & Hin & Hrest). exists ck1, c1. split; [right; exact Hin|exact Hrest].
+          * intros (ck1 & c1 & [E|Hin] & Hm & Hd).
+            -- inversion E; subst. destruct Hd as [Hv|Hd]; [left; rewrite Hv; left; reflexivity|right; left; apply Hin_rc; exact Hd].
+            -- right; right. apply Hin_rr. exists ck1, c1. auto.
+        + exists rr. split; [exact Hrr|]. intros v. rewrite Hin_rr. split.
+          * intros (ck1 & c1 & Hin & Hrest). exists ck1, c1. split; [right; exact Hin|exact Hrest].
+          * intros (ck1 & c1 & [E|Hin] & Hm & Hd); [inversion E; subst; congruence|]. exists ck1, c1. auto. }
+    destruct (Hloop ch (fun _ _ H => H)) as (r & Hr & Hin_r). exists r. split; [exact Hr|].
+    intros v. rewrite Hin_r. split.
+    + intros (ck & c & Hin & Hm & Hd).
+      assert (Hg : get keq klt ch ck = Some c).
+      { rewrite (get_is_sget K _ keq klt keq_sym keq_trans ch ck Hu). apply sget_of_in; assumption. }
+      destruct Hd as [Hv|(ks & Hne & Hi & Hl)].
+      * exists [ck]. split; [congruence|]. split; [cbn; rewrite Hm; reflexivity|].
+        rewrite lookup_cons, Hg. destruct c as [cv cch]. rewrite lookup_nil. exact Hv.
+      * exists (ck :: ks). split; [congruence|]. split; [cbn; rewrite Hm, Hi; reflexivity|].
+        rewrite lookup_cons, Hg. exact Hl.
+    + intros (ks & Hne & Hi & Hl). destruct ks as [|k0 ks]; [congruence|].
+      cbn in Hi. apply andb_true_iff in Hi. destruct Hi as [Hm Hi].
+      rewrite lookup_cons in Hl. destruct (get keq klt ch k0) as [c|] eqn:Hg; [|discriminate Hl].
+      rewrite (get_is_sget K _ keq klt keq_sym keq_trans ch k0 Hu) in Hg.
+      apply sget_in_keq in Hg. destruct Hg as (ck & Hin & Hk).
+      exists ck, c. split; [exact Hin|]. split; [rewrite (kmatch_congr k ck k0 Hk); exact Hm|].
+      destruct ks as [|k1 ks]; [left; destruct c as [cv cch]; rewrite lookup_nil in Hl; exact Hl|].
+      right. exists (k1 :: ks). split; [congruence|]. split; assumption.
+Qed.
+
 (* ---- specification and refinement over histories ---- *)
 Fixpoint slookup (l : list (list K * V)) (ks : list K) : option V :=
   match l with
@@ -197,11 +315,11 @@ Fixpoint srun (l : list (list K * V)) (ops : list (top K V)) : list (option (tou
   end.
 
 Lemma tstep_fork t inner :
-  tstep keq klt t (Fork inner) = (t, @ForkBegin V :: trun keq klt (copy keq klt t) inner ++ [ForkEnd]).
+  tstep keq klt isph isarg t (Fork inner) = (t, @ForkBegin V :: trun keq klt isph isarg (copy keq klt t) inner ++ [ForkEnd]).
 Proof.
   unfold tstep; cbn [tstep_rec]. do 3 f_equal. generalize (copy keq klt t).
   induction inner as [|o r IH]; intros c; cbn [trun]; [reflexivity|].
-  unfold tstep at 1. destruct (tstep_rec keq klt o c) as [c' out]. rewrite IH. reflexivity.
+  unfold tstep at 1. destruct (tstep_rec keq klt isph isarg o c) as [c' out]. rewrite IH. reflexivity.
 Qed.
 
 Lemma sstep_fork l inner :
@@ -276,14 +394,14 @@ Qed.
 
 Definition step_refines_at (o : top K V) : Prop :=
   forall t l, TR t l ->
-    map obs (snd (tstep keq klt t o)) = snd (sstep l o) /\ TR (fst (tstep keq klt t o)) (fst (sstep l o)).
+    map obs (snd (tstep keq klt isph isarg t o)) = snd (sstep l o) /\ TR (fst (tstep keq klt isph isarg t o)) (fst (sstep l o)).
 
 Lemma run_refines_of ops :
-  Forall step_refines_at ops -> forall t l, TR t l -> map obs (trun keq klt t ops) = srun l ops.
+  Forall step_refines_at ops -> forall t l, TR t l -> map obs (trun keq klt isph isarg t ops) = srun l ops.
 Proof.
   induction 1 as [|o r Ho Hr IH]; intros t l HR; cbn [trun srun]; [reflexivity|].
   destruct (Ho t l HR) as [Hout HR'].
-  destruct (tstep keq klt t o) as [t' out]; destruct (sstep l o) as [l' out']; cbn [fst snd] in *.
+  destruct (tstep keq klt isph isarg t o) as [t' out]; destruct (sstep l o) as [l' out']; cbn [fst snd] in *.
   rewrite map_app, Hout. f_equal. apply IH. exact HR'.
 Qed.
 
@@ -306,42 +424,42 @@ Qed.
 
 (* every history - with Puts and nested forks - answers as the association list *)
 Theorem trie_refines_assoc_list : forall ops t l,
-  TR t l -> map obs (trun keq klt t ops) = srun l ops.
+  TR t l -> map obs (trun keq klt isph isarg t ops) = srun l ops.
 Proof. intros ops. apply run_refines_of. apply Forall_forall. intros o _. apply tstep_refines. Qed.
 
 Lemma TR_init : TR empty [].
 Proof. split; [apply wf_empty|intros ks; apply lookup_empty]. Qed.
 
 Definition state_after (ops : list (top K V)) : trie :=
-  fold_left (fun t o => fst (tstep keq klt t o)) ops empty.
+  fold_left (fun t o => fst (tstep keq klt isph isarg t o)) ops empty.
 Definition spec_after (ops : list (top K V)) : list (list K * V) :=
   fold_left (fun l o => fst (sstep l o)) ops [].
 
 Lemma TR_reachable ops t l : TR t l ->
-  TR (fold_left (fun t o => fst (tstep keq klt t o)) ops t) (fold_left (fun l o => fst (sstep l o)) ops l).
+  TR (fold_left (fun t o => fst (tstep keq klt isph isarg t o)) ops t) (fold_left (fun l o => fst (sstep l o)) ops l).
 Proof. revert t l; induction ops as [|o ops IH]; intros t l H; cbn; [exact H|]. apply IH. apply tstep_refines; exact H. Qed.
 
 (* ---- forks are isolated ---- *)
 Lemma trun_app (t : trie) (ops1 ops2 : list (top K V)) :
-  trun keq klt t (ops1 ++ ops2) =
-  trun keq klt t ops1 ++ trun keq klt (fold_left (fun t o => fst (tstep keq klt t o)) ops1 t) ops2.
+  trun keq klt isph isarg t (ops1 ++ ops2) =
+  trun keq klt isph isarg t ops1 ++ trun keq klt isph isarg (fold_left (fun t o => fst (tstep keq klt isph isarg t o)) ops1 t) ops2.
 Proof.
   revert t. induction ops1 as [|o r IH]; intros t; cbn [app trun fold_left]; [reflexivity|].
-  destruct (tstep keq klt t o) as [t' out]; cbn [fst]. rewrite IH, app_assoc. reflexivity.
+  destruct (tstep keq klt isph isarg t o) as [t' out]; cbn [fst]. rewrite IH, app_assoc. reflexivity.
 Qed.
 
-Lemma fork_keeps_state (t : trie) (inner : list (top K V)) : fst (tstep keq klt t (Fork inner)) = t.
+Lemma fork_keeps_state (t : trie) (inner : list (top K V)) : fst (tstep keq klt isph isarg t (Fork inner)) = t.
 Proof. rewrite tstep_fork. reflexivity. Qed.
 
 (* one fork: whatever the inner history does to the copy (Puts over keys of the original, new
    declarations, further forks), the continuation answers exactly as if the fork had not happened;
    the fork itself answers as the association list of the original at that moment *)
 Theorem fork_isolation : forall h inner cont,
-  trun keq klt empty (h ++ Fork inner :: cont) =
-    trun keq klt empty h ++ (@ForkBegin V :: trun keq klt (copy keq klt (state_after h)) inner ++ [ForkEnd])
-    ++ trun keq klt (state_after h) cont
-  /\ trun keq klt empty (h ++ cont) = trun keq klt empty h ++ trun keq klt (state_after h) cont
-  /\ map obs (trun keq klt (copy keq klt (state_after h)) inner) = srun (spec_after h) inner.
+  trun keq klt isph isarg empty (h ++ Fork inner :: cont) =
+    trun keq klt isph isarg empty h ++ (@ForkBegin V :: trun keq klt isph isarg (copy keq klt (state_after h)) inner ++ [ForkEnd])
+    ++ trun keq klt isph isarg (state_after h) cont
+  /\ trun keq klt isph isarg empty (h ++ cont) = trun keq klt isph isarg empty h ++ trun keq klt isph isarg (state_after h) cont
+  /\ map obs (trun keq klt isph isarg (copy keq klt (state_after h)) inner) = srun (spec_after h) inner.
 Proof.
   intros h inner cont. rewrite !trun_app. fold (state_after h). split; [|split; [reflexivity|]].
   - cbn [trun]. rewrite tstep_fork. reflexivity.
@@ -349,7 +467,7 @@ Proof.
 Qed.
 
 Lemma state_erase_forks (ops : list (top K V)) (t : trie) :
-  fold_left (fun t o => fst (tstep keq klt t o)) (erase_forks ops) t = fold_left (fun t o => fst (tstep keq klt t o)) ops t.
+  fold_left (fun t o => fst (tstep keq klt isph isarg t o)) (erase_forks ops) t = fold_left (fun t o => fst (tstep keq klt isph isarg t o)) ops t.
 Proof.
   revert t. induction ops as [|o r IH]; intros t; [reflexivity|].
   unfold erase_forks in *. cbn [filter fold_left].
@@ -357,13 +475,13 @@ Proof.
 Qed.
 
 Definition balanced_at (o : top K V) : Prop :=
-  forall t d rest, strip_forks (S d) (snd (tstep keq klt t o) ++ rest) = strip_forks (S d) rest.
+  forall t d rest, strip_forks (S d) (snd (tstep keq klt isph isarg t o) ++ rest) = strip_forks (S d) rest.
 
 Lemma balanced_run ops : Forall balanced_at ops ->
-  forall t d rest, strip_forks (S d) (trun keq klt t ops ++ rest) = strip_forks (S d) rest.
+  forall t d rest, strip_forks (S d) (trun keq klt isph isarg t ops ++ rest) = strip_forks (S d) rest.
 Proof.
   induction 1 as [|o r Ho Hr IH]; intros t d rest; cbn [trun app]; [reflexivity|].
-  specialize (Ho t d). destruct (tstep keq klt t o) as [t' out]; cbn [snd] in Ho.
+  specialize (Ho t d). destruct (tstep keq klt isph isarg t o) as [t' out]; cbn [snd] in Ho.
   rewrite <- app_assoc, Ho. apply IH.
 Qed.
 
@@ -381,7 +499,7 @@ Qed.
 (* any number of forks, nested to any depth, anywhere in the history: the outputs outside the forks
    are exactly the outputs of the history with the forks erased *)
 Theorem forks_invisible : forall (ops : list (top K V)) (t : trie),
-  strip_forks 0 (trun keq klt t ops) = trun keq klt t (erase_forks ops).
+  strip_forks 0 (trun keq klt isph isarg t ops) = trun keq klt isph isarg t (erase_forks ops).
 Proof.
   induction ops as [|o r IH]; intros t; [reflexivity|].
   unfold erase_forks in *. cbn [trun filter].
@@ -417,7 +535,7 @@ Theorem dup_rejected : forall ops1 ks v ops2 ks' v',
   forallb (fun o => negb (is_put o)) ops2 = true ->
   lookup keq klt (state_after ops1) ks = None ->
   eql keq ks ks' = true ->
-  snd (tstep keq klt (state_after (ops1 ++ Declare ks v :: ops2)) (Declare ks' v')) = [Rejected v].
+  snd (tstep keq klt isph isarg (state_after (ops1 ++ Declare ks v :: ops2)) (Declare ks' v')) = [Rejected v].
 Proof.
   intros ops1 ks v ops2 ks' v' Hnp Hnone E.
   pose proof (TR_reachable (ops1 ++ Declare ks v :: ops2) empty [] TR_init) as [Hw Ho].
@@ -455,6 +573,50 @@ Proof.
   intros ops ks v ks' E. unfold state_after. rewrite fold_left_app. cbn [fold_left].
   pose proof (TR_reachable ops empty [] TR_init) as [Hw Ho].
   unfold tstep; cbn [tstep_rec fst]. rewrite lookup_insert by exact Hw. rewrite E. reflexivity.
+Qed.
+
+(* Search refines the association list: for every state a history can reach (TR), the values it
+   returns are exactly those bound to the non-empty declared patterns that a prefix of the call
+   instantiates *)
+Theorem search_refines : forall t l q, TR t l ->
+  exists r, search_seq keq klt isph isarg q t = Some r /\
+    forall v, In v r <-> exists ks, ks <> [] /\ inst_prefix keq isph isarg ks q = true /\ slookup l ks = Some v.
+Proof.
+  intros t l q [Hw Ho]. destruct (search_spec q t Hw) as (r & Hr & Hin). exists r. split; [exact Hr|].
+  intros v. rewrite Hin. split; intros (ks & H1 & H2 & H3); exists ks; (split; [exact H1|split; [exact H2|]]);
+    [rewrite <- Ho|rewrite Ho]; exact H3.
+Qed.
+
+Theorem search_refines_history : forall ops q,
+  exists r, search_seq keq klt isph isarg q (state_after ops) = Some r /\
+    forall v, In v r <-> exists ks, ks <> [] /\ inst_prefix keq isph isarg ks q = true /\ slookup (spec_after ops) ks = Some v.
+Proof. intros ops q. apply search_refines. apply TR_reachable, TR_init. Qed.
+
+Lemma inst_prefix_app ks c rest : instantiates keq isph isarg ks c = true -> inst_prefix keq isph isarg ks (c ++ rest) = true.
+Proof.
+  revert c. induction ks as [|ck ks IH]; intros [|k c] H; cbn in *; try congruence.
+  apply andb_true_iff in H. destruct H as [H1 H2]. rewrite H1, (IH c H2). reflexivity.
+Qed.
+
+(* C20, "stays callable" at the level the parser uses the trie: every successfully declared alias
+   is among the aliases Search returns for EVERY call that instantiates its pattern (each
+   placeholder replaced by an argument, every other token equal; whatever follows the call),
+   whatever other aliases are declared before or afterwards - siblings that match the same call
+   tokens (a literal word where this alias has a placeholder, or vice versa) do not hide it - and
+   across any number of forks. *)
+Theorem callable_by_search : forall ops1 ks v ops2 c rest,
+  forallb (fun o => negb (is_put o)) ops2 = true ->
+  lookup keq klt (state_after ops1) ks = None ->
+  ks <> [] ->
+  instantiates keq isph isarg ks c = true ->
+  exists r, search_seq keq klt isph isarg (c ++ rest) (state_after (ops1 ++ Declare ks v :: ops2)) = Some r /\ In v r.
+Proof.
+  intros ops1 ks v ops2 c rest Hnp Hnone Hne Hi.
+  pose proof (TR_reachable (ops1 ++ Declare ks v :: ops2) empty [] TR_init) as [Hw _].
+  fold (state_after (ops1 ++ Declare ks v :: ops2)) in Hw.
+  destruct (search_spec (c ++ rest) _ Hw) as (r & Hr & Hin). exists r. split; [exact Hr|].
+  apply Hin. exists ks. split; [exact Hne|]. split; [apply inst_prefix_app; exact Hi|].
+  apply stays_callable; [exact Hnp|exact Hnone|apply eql_refl].
 Qed.
 
 End Proofs.
